@@ -835,6 +835,61 @@ func (w *c34World) genTx(rt *rapid.T, view []*c34Acct, kind string) (c34Tx, bool
 		if len(targets) == 0 {
 			return c34Tx{}, false
 		}
+		// move: lower the bond to one P-Rep and raise the bond to ANOTHER one by more than the unused stake
+		// allows. The amount taken from the first one becomes unbonding and keeps the stake in use, so the call
+		// must fail although "new bonds + delegation + unbonding so far" would still fit into the stake.
+		if len(targets) >= 2 && len(a.bond) > 0 && rapid.IntRange(0, 2).Draw(rt, "bondMove") != 0 {
+			var srcs []int
+			for k, v := range a.bond {
+				if v.Sign() > 0 {
+					srcs = append(srcs, k)
+				}
+			}
+			sort.Ints(srcs)
+			if len(srcs) > 0 {
+				src := rapid.SampledFrom(srcs).Draw(rt, "moveFrom")
+				var dsts []int
+				for _, k := range targets {
+					if k != src && (a.unbonds[k] == nil || a.unbonds[k].Sign() == 0) {
+						dsts = append(dsts, k)
+					}
+				}
+				free := new(big.Int).Sub(a.stake, c34Using(a))
+				if len(dsts) > 0 && free.Sign() >= 0 {
+					dst := rapid.SampledFrom(dsts).Draw(rt, "moveTo")
+					d := c34Part(rt, "moveAmt", big.NewInt(1), a.bond[src])
+					x := c34Part(rt, "moveOver", big.NewInt(1), d)
+					raise := new(big.Int).Add(free, x)
+					var votes []c34V
+					var keys []int
+					for k := range a.bond {
+						keys = append(keys, k)
+					}
+					sort.Ints(keys)
+					found := false
+					for _, k := range keys {
+						v := new(big.Int).Set(a.bond[k])
+						switch k {
+						case src:
+							v.Sub(v, d)
+						case dst:
+							v.Add(v, raise)
+							found = true
+						}
+						if v.Sign() > 0 {
+							votes = append(votes, c34V{k, v})
+						}
+					}
+					if !found {
+						votes = append(votes, c34V{dst, raise})
+					}
+					if len(votes) <= 3 {
+						w.st["bondMoveBeyondFreeStake"]++
+						return c34Tx{kind: "bond", from: from, votes: votes, valid: false}, true
+					}
+				}
+			}
+		}
 		to := rapid.SampledFrom(targets).Draw(rt, "bondTo")
 		if rapid.Bool().Draw(rt, "aboveStake") {
 			over := new(big.Int).Add(a.stake, c34Part(rt, "over", big.NewInt(1), c34ICX))
@@ -1293,7 +1348,7 @@ func TestC34(t *testing.T) {
 				}
 				nt := w.st["unstakeReturned"] > 0 && w.st["stakeOK"] > 0 && w.st["delegOK"] > 0 && w.st["bondOK"] > 0
 				var labels []string
-				for _, k := range []string{"unstakeReturned", "unstakeSlotsFull", "unstakeCancelled", "claimPaid", "registerOK", "delegToInactive", "validOpFailed", "invalidOpSucceeded"} {
+				for _, k := range []string{"unstakeReturned", "unstakeSlotsFull", "unstakeCancelled", "claimPaid", "registerOK", "delegToInactive", "validOpFailed", "invalidOpSucceeded", "bondMoveBeyondFreeStake"} {
 					if w.st[k] > 0 {
 						labels = append(labels, k)
 					}
